@@ -322,6 +322,38 @@ def run(tier, seed=0, shard=(0, 1)):
                             c = c >> gates.SWAP @ Id(c.cod[2:])
                         c = c >> tail @ Id(c.cod[2:])
                         check(rep, c)
+    # a qubit is removed while a bit wire sits to its LEFT (an earlier measurement), then gates act on the qubits to its right
+    if shard[0] == 5 % shard[1]:
+        prep3 = Ket(0, 0, 0) >> Rx(0.3) @ gates.X @ gates.H
+        for rem in (Discard(), Bra(1), Measure()):
+            for tail in (gates.H >> Measure(), Rx(0.2) >> Measure(), gates.X >> Measure()):
+                c = prep3 >> Measure() @ Id(2) >> Id(bit) @ rem @ Id(1)
+                c = c >> Id(c.cod[:-1]) @ tail
+                check(rep, c)
+            check(rep, prep3 >> Measure() @ rem @ Measure())
+            check(rep, prep3 >> Measure() @ rem @ Id(1) >> Id(bit @ rem.cod) @ Rx(0.4) >> Id(bit @ rem.cod) @ Measure())
+        check(rep, Ket(0, 0, 0, 0) >> Rx(0.3) @ gates.X @ gates.H @ Rx(0.6) >> Measure() @ Id(3) >> Id(bit) @ Measure() @ Id(2)
+              >> Id(bit @ bit) @ Discard() @ Id(1) >> Id(bit @ bit) @ gates.H >> Id(bit @ bit) @ Measure())
+    # several circuits evaluated through the backend in one call, each with its own classical post-processing
+    if shard[0] == 6 % shard[1]:
+        NOT_ = ClassicalGate('NOT', 1, 1, [0, 1, 1, 0])
+        m2 = Ket(0, 0) >> Rx(0.3) @ Rx(0.7) >> Measure() @ Measure()
+        batch = [m2, m2 >> NOT_ @ Id(bit), m2 >> circuit.Swap(bit, bit), m2 >> Id(bit) @ NOT_, m2 >> circuit.Swap(bit, bit) >> NOT_ @ Id(bit)]
+        for order in (batch, batch[::-1], batch[2:] + batch[:2]):
+            r = 'batch %r' % ([repr(c)[-60:] for c in order],)
+            rep.case(('batch', r), nontrivial=True)
+            try:
+                got = order[0].eval(*order[1:], backend=ExactBackend(), normalize=False)
+            except Exception as e:
+                rep.fail('C13:backend.batch.raises', 'batch evaluation through an exact backend raised %s: %s' % (type(e).__name__, e), r)
+                continue
+            for k, (c, g) in enumerate(zip(order, got)):
+                want = local_distribution(c)
+                g = numpy.array(g.array, dtype=complex)
+                if g.size != want.size or not numpy.allclose(g.reshape(want.shape), want, atol=1e-9):
+                    rep.fail('C13:backend.batch', 'circuit %d of a batch: backend %s vs local %s' % (
+                        k, numpy.round(g.flatten(), 4)[:8], numpy.round(want.flatten(), 4)[:8]), r)
+                    break
     # classical bookkeeping: all qubits measured (by one wide Measure box or several), then up to two classical steps
     # among bit swaps, NOT on one bit, a fresh Bits(0) at every offset; distinct marginals tell the bits apart
     NOT = ClassicalGate('NOT', 1, 1, [0, 1, 1, 0])
